@@ -7,6 +7,7 @@ import (
 	"hash/fnv"
 	"io"
 	"math/rand"
+	"os"
 	"reflect"
 	"runtime"
 	"sort"
@@ -61,6 +62,8 @@ type GenOp struct {
 	O    int            `json:"o"`
 	Obs  GenObs         `json:"obs"`
 	Ev   string         `json:"ev"`
+	// Tup (optional) names the typed component tuple through which SetRel / SetRelBatch go (MapN at arity N)
+	Tup []string `json:"tup,omitempty"`
 }
 
 // GenObs is an observer specification.
@@ -225,6 +228,7 @@ func (x *Exec) dumpLoad(op GenOp, lo *LogOp) {
 			lo.Alive2 = append(lo.Alive2, h)
 		}
 	}
+	lo.Used2 = w2.Stats().Entities.Used
 	for i := 0; i < op.N; i++ {
 		lo.Ret2 = append(lo.Ret2, w2.NewEntity())
 	}
@@ -243,9 +247,20 @@ func (x *Exec) dumpLoad(op GenOp, lo *LogOp) {
 			lo.Alive3 = append(lo.Alive3, h)
 		}
 	}
+	lo.Used3 = w3.Stats().Entities.Used
 	for i := 0; i < op.N; i++ {
 		lo.Ret3 = append(lo.Ret3, w3.NewEntity())
 	}
+	// a loaded world is an ordinary world: after Reset it hands out the handles of a fresh world, and the zero
+	// entity never becomes alive (C02 / C16)
+	w3.Reset()
+	w4 := ecs.NewWorld(x.Cfg.Caps...)
+	for i := 0; i < 3; i++ {
+		lo.Ret4 = append(lo.Ret4, w3.NewEntity())
+		lo.Fresh4 = append(lo.Fresh4, w4.NewEntity())
+	}
+	lo.ZeroAlive = w3.Alive(ecs.Entity{})
+	lo.Used4 = w3.Stats().Entities.Used
 	for i := 0; i < op.N; i++ {
 		lo.Ret = append(lo.Ret, x.w.NewEntity())
 	}
@@ -359,40 +374,46 @@ type CbRec struct {
 }
 
 type LogOp struct {
-	K      string                `json:"k"`
-	I      int                   `json:"i"`
-	Op     string                `json:"op"`
-	E      ecs.Entity            `json:"e"`
-	Add    []string              `json:"add"`
-	Rem    []string              `json:"rem"`
-	Vals   map[string]int64      `json:"vals"`
-	Tg     map[string]ecs.Entity `json:"tg"`
-	N      int                   `json:"n"`
-	F      int                   `json:"f"`
-	Flt    LogFlt                `json:"flt"`
-	Mode   string                `json:"mode"`
-	Panic  bool                  `json:"panic"`
-	Msg    string                `json:"msg"`
-	Ret    []ecs.Entity          `json:"ret"`
-	Bvals  []BVal                `json:"bvals"`
-	O      int                   `json:"o"`
-	Obs    GenObs                `json:"obs"`
-	Ev     string                `json:"ev"`
-	Late   bool                  `json:"late"`
-	Caps   []TabCap              `json:"caps"`
-	Alive2 []ecs.Entity          `json:"alive2"`
-	Ret2   []ecs.Entity          `json:"ret2"`
-	Alive3 []ecs.Entity          `json:"alive3"`
-	Ret3   []ecs.Entity          `json:"ret3"`
-	Codec  [][3]ecs.Entity       `json:"codec"`
-	BinOK  []int                 `json:"binok"`
-	Iters  int                   `json:"iters"`
-	Q      int                   `json:"q"`
-	Ok     bool                  `json:"ok"`
-	Res    Visit                 `json:"res"`
-	Cbs    []CbRec               `json:"cbs"`
-	Om     []ecs.Entity          `json:"om"` // handle of every creation ordinal (since the last Reset)
-	St     State                 `json:"st"`
+	K         string                `json:"k"`
+	I         int                   `json:"i"`
+	Op        string                `json:"op"`
+	E         ecs.Entity            `json:"e"`
+	Add       []string              `json:"add"`
+	Rem       []string              `json:"rem"`
+	Vals      map[string]int64      `json:"vals"`
+	Tg        map[string]ecs.Entity `json:"tg"`
+	N         int                   `json:"n"`
+	F         int                   `json:"f"`
+	Flt       LogFlt                `json:"flt"`
+	Mode      string                `json:"mode"`
+	Panic     bool                  `json:"panic"`
+	Msg       string                `json:"msg"`
+	Ret       []ecs.Entity          `json:"ret"`
+	Bvals     []BVal                `json:"bvals"`
+	O         int                   `json:"o"`
+	Obs       GenObs                `json:"obs"`
+	Ev        string                `json:"ev"`
+	Late      bool                  `json:"late"`
+	Caps      []TabCap              `json:"caps"`
+	Alive2    []ecs.Entity          `json:"alive2"`
+	Ret2      []ecs.Entity          `json:"ret2"`
+	Alive3    []ecs.Entity          `json:"alive3"`
+	Ret3      []ecs.Entity          `json:"ret3"`
+	Used2     int                   `json:"used2"`
+	Used3     int                   `json:"used3"`
+	Ret4      []ecs.Entity          `json:"ret4"`
+	Fresh4    []ecs.Entity          `json:"fresh4"`
+	Used4     int                   `json:"used4"`
+	ZeroAlive bool                  `json:"zeroalive"`
+	Codec     [][3]ecs.Entity       `json:"codec"`
+	BinOK     []int                 `json:"binok"`
+	Iters     int                   `json:"iters"`
+	Q         int                   `json:"q"`
+	Ok        bool                  `json:"ok"`
+	Res       Visit                 `json:"res"`
+	Cbs       []CbRec               `json:"cbs"`
+	Om        []ecs.Entity          `json:"om"` // handle of every creation ordinal (since the last Reset)
+	St        State                 `json:"st"`
 }
 
 type Visit struct {
@@ -447,6 +468,7 @@ type Config struct {
 	ResetP    int      `json:"resetp"`    // driver: per-mille probability of World.Reset / DumpLoad per step
 	TypedObs  bool     `json:"typedobs"`  // register observers through Observer1..4 where the observed set allows
 	Arity     bool     `json:"arity"`     // driver: draw component sets from the instantiated tuples of all arities
+	Grid      int      `json:"grid"`      // percent of driver operations drawn coverage-guided (grid.go)
 	BatchN    int      `json:"batchn"`    // driver: maximum size of NewBatch (default 5)
 	ObsP      int      `json:"obsp"`      // driver: per-mille probability of an observer operation per step
 	RegMax    int      `json:"regmax"`    // registry histories: register at most this many types (0: beyond the build's limit)
@@ -491,6 +513,10 @@ type Exec struct {
 	obs        map[int]*ecs.Observer
 	tobs       map[int]TypedObserver
 	tsets      [][]string
+	gtargets   []gridTarget
+	gqueue     []GenOp
+	ghits      []int
+	readRot    int
 	recent     []GenFlt
 	queries    map[int]*openQuery
 	cur        *LogOp
@@ -526,6 +552,9 @@ func (x *Exec) emit(v any) {
 				err = fmt.Errorf("%v", r)
 			}
 		}()
+		if !entityJSONUsable || os.Getenv("ARKX_PLAINJSON") != "" {
+			return plainJSON(v)
+		}
 		return json.Marshal(v)
 	}()
 	if err != nil {
@@ -683,6 +712,73 @@ func (x *Exec) canon(names []string) []string {
 	panic(harnessBug{"no instantiation for component set " + strings.Join(names, ",")})
 }
 
+// anyExTuple is the type parameter list of an ExchangeN that is only used for removing: irrelevant for the
+// outcome, so in arity mode every N is used in turn.
+func (x *Exec) anyExTuple() []string {
+	if !x.Cfg.Arity {
+		return []string{x.Cfg.Comps[0]}
+	}
+	x.readRot++
+	ts := x.tupleSets()
+	for k := 0; k < len(ts); k++ {
+		t := ts[(x.readRot+k)%len(ts)]
+		if len(t) <= 8 {
+			if c := x.canonOrNil(t); c != nil {
+				if _, ok := exCtors[strings.Join(c, ",")]; ok {
+					return c
+				}
+			}
+		}
+	}
+	return []string{x.Cfg.Comps[0]}
+}
+
+// writerFn is an initialisation callback that writes the given values through the handed-out pointers.
+func (x *Exec) writerFn(tuple []string, vals FlexMap[int64]) func(ps []*int64) {
+	vs := valsFor(tuple, vals)
+	return func(ps []*int64) {
+		for i := range ps {
+			x.put(tuple[i], ps[i], vs[i])
+		}
+	}
+}
+
+// relTuple is the typed tuple a relation change goes through: the relation components themselves, or the
+// (instantiated) tuple the generator asked for when it contains them.
+func (x *Exec) relTuple(keys, hint []string) []string {
+	if len(hint) > 0 {
+		in := map[string]bool{}
+		for _, c := range hint {
+			in[c] = true
+		}
+		ok := true
+		for _, k := range keys {
+			if !in[k] {
+				ok = false
+			}
+		}
+		if ok {
+			if t := x.canonMapOrNil(hint); t != nil {
+				return t
+			}
+		}
+	}
+	return x.canon(keys)
+}
+
+func (x *Exec) canonMapOrNil(names []string) (t []string) {
+	defer func() {
+		if recover() != nil {
+			t = nil
+		}
+	}()
+	t = x.canon(names)
+	if _, ok := mapCtors[strings.Join(t, ",")]; !ok {
+		return nil
+	}
+	return t
+}
+
 func (x *Exec) canonOrNil(names []string) (t []string) {
 	defer func() {
 		if recover() != nil {
@@ -713,7 +809,7 @@ func (x *Exec) mapFor(tuple []string) TypedMap {
 			if m, ok := x.maps["T:"+key]; ok {
 				return m
 			}
-			m := ctor(x.w)
+			m := TypedMap(covMap{ctor(x.w), x.Cover, "Map"})
 			x.maps["T:"+key] = m
 			return m
 		}
@@ -726,7 +822,7 @@ func (x *Exec) mapFor(tuple []string) TypedMap {
 	if !ok {
 		panic(harnessBug{"no typed map instantiation for " + key})
 	}
-	m := ctor(x.w)
+	m := TypedMap(covMap{ctor(x.w), x.Cover, covName("Map", len(tuple))})
 	x.maps[key] = m
 	return m
 }
@@ -741,7 +837,7 @@ func (x *Exec) exFor(tuple []string, rem []string) TypedExchange {
 	if !ok {
 		panic(harnessBug{"no typed exchange instantiation for " + key})
 	}
-	m := ctor(x.w)
+	m := TypedExchange(covEx{ctor(x.w), x.Cover, covName("Exchange", len(tuple))})
 	cs := []ecs.Comp{}
 	for _, r := range rem {
 		cs = append(cs, compComps[r])
@@ -923,9 +1019,51 @@ func (x *Exec) entRec(e ecs.Entity) EntRec {
 		r.C = append(r.C, n)
 	}
 	sort.Strings(r.C)
+	viaTuple := map[string]bool{}
+	if x.Cfg.Arity && x.Cfg.Path != "unsafe" && len(r.C) >= 2 {
+		// read through MapN.Get / GetRelation at a higher arity: one of the instantiated tuples the entity has
+		has := map[string]bool{}
+		for _, c := range r.C {
+			has[c] = true
+		}
+		cands := [][]string{}
+		for _, t := range x.tupleSets() {
+			if len(t) < 2 {
+				continue
+			}
+			ok := true
+			for _, c := range t {
+				if !has[c] {
+					ok = false
+				}
+			}
+			if ok {
+				cands = append(cands, t)
+			}
+		}
+		if len(cands) > 0 {
+			x.readRot++
+			tuple := x.canon(cands[x.readRot%len(cands)])
+			m := x.mapFor(tuple)
+			if !m.HasAll(e) {
+				r.C = append(r.C, "?HasAll")
+			}
+			ps := m.Get(e)
+			for i, c := range tuple {
+				r.V[c] = x.get(c, ps[i])
+				if x.rel[c] {
+					r.T[c] = m.GetRelation(e, i)
+				}
+				viaTuple[c] = true
+			}
+		}
+	}
 	for _, c := range r.C {
-		if _, ok := compTypes[c]; !ok {
+		if _, ok := compTypes[c]; !ok || viaTuple[c] {
 			continue
+		}
+		if x.Cfg.Arity && x.Cfg.Path != "unsafe" && !x.mapFor([]string{c}).HasAll(e) {
+			r.C = append(r.C, "?Has"+c)
 		}
 		r.V[c] = x.readVal(e, c)
 		if x.rel[c] {
@@ -1007,7 +1145,7 @@ func (x *Exec) buildFilter(with, without []string, excl bool, ft map[string]ecs.
 		if !ok {
 			return nil, fmt.Errorf("no typed filter for %v", tuple[:n])
 		}
-		rf.tf = ctor(x.w)
+		rf.tf = covFilter{ctor(x.w), x.Cover, covName("Filter", n)}
 		cs := []ecs.Comp{}
 		for _, c := range tuple[n:] {
 			cs = append(cs, compComps[c])
@@ -1102,7 +1240,7 @@ func (x *Exec) run(op GenOp, i int) LogOp {
 	tg := x.tgMap(op.Tg)
 	lo := LogOp{K: "op", I: i, Op: op.Op, E: e, Add: op.Add, Rem: op.Rem, Vals: map[string]int64{}, Tg: tg,
 		N: op.N, F: op.F, Flt: x.logFlt(op.Flt), Mode: op.Mode, Ret: []ecs.Entity{}, Bvals: []BVal{},
-		O: op.O, Obs: op.Obs, Ev: op.Ev, Cbs: []CbRec{}, Q: op.Q, Caps: []TabCap{}, Alive2: []ecs.Entity{}, Ret2: []ecs.Entity{}, Alive3: []ecs.Entity{}, Ret3: []ecs.Entity{}, Codec: [][3]ecs.Entity{}, BinOK: []int{},
+		O: op.O, Obs: op.Obs, Ev: op.Ev, Cbs: []CbRec{}, Q: op.Q, Caps: []TabCap{}, Alive2: []ecs.Entity{}, Ret2: []ecs.Entity{}, Alive3: []ecs.Entity{}, Ret3: []ecs.Entity{}, Ret4: []ecs.Entity{}, Fresh4: []ecs.Entity{}, Codec: [][3]ecs.Entity{}, BinOK: []int{},
 		Res: Visit{V: map[string]int64{}, T: map[string]ecs.Entity{}}}
 	if lo.Obs.Obs == nil {
 		lo.Obs.Obs = []string{}
@@ -1225,9 +1363,14 @@ func (x *Exec) dispatch(op GenOp, e ecs.Entity, tg map[string]ecs.Entity, lo *Lo
 		}
 		tuple := x.canon(op.Add)
 		m := x.mapFor(tuple)
-		if op.Mode == "noinit" {
-			// no callback: the components must read as zero; the new handles are found by a scan
-			m.NewBatchFn(op.N, nil, x.typedRels(tuple, tg))
+		if op.Mode == "noinit" || op.Mode == "val" {
+			// no callback: the components must read as zero (noinit) or as the given values (val); the new
+			// handles are found by a scan
+			if op.Mode == "val" {
+				m.NewBatch(op.N, valsFor(tuple, op.Vals), x.typedRels(tuple, tg))
+			} else {
+				m.NewBatchFn(op.N, nil, x.typedRels(tuple, tg))
+			}
 			known := map[ecs.Entity]bool{}
 			for _, h := range x.issued {
 				known[h] = true
@@ -1272,6 +1415,8 @@ func (x *Exec) dispatch(op GenOp, e ecs.Entity, tg map[string]ecs.Entity, lo *Lo
 			ex := x.exFor(tuple, nil)
 			if noinit {
 				ex.AddFn(e, nil, x.typedRels(tuple, tg))
+			} else if op.Mode == "fn" {
+				ex.AddFn(e, x.writerFn(tuple, op.Vals), x.typedRels(tuple, tg))
 			} else {
 				ex.Add(e, valsFor(tuple, op.Vals), x.typedRels(tuple, tg))
 			}
@@ -1280,6 +1425,8 @@ func (x *Exec) dispatch(op GenOp, e ecs.Entity, tg map[string]ecs.Entity, lo *Lo
 		m := x.mapFor(tuple)
 		if noinit {
 			m.AddFn(e, nil, x.typedRels(tuple, tg))
+		} else if op.Mode == "fn" {
+			m.AddFn(e, x.writerFn(tuple, op.Vals), x.typedRels(tuple, tg))
 		} else {
 			m.Add(e, valsFor(tuple, op.Vals), x.typedRels(tuple, tg))
 		}
@@ -1290,7 +1437,7 @@ func (x *Exec) dispatch(op GenOp, e ecs.Entity, tg map[string]ecs.Entity, lo *Lo
 		}
 		if x.Cfg.Path == "exchange" {
 			// ExchangeN needs at least one type parameter: use one the entity does not matter for
-			x.exFor([]string{x.Cfg.Comps[0]}, op.Rem).Remove(e)
+			x.exFor(x.anyExTuple(), op.Rem).Remove(e)
 			return
 		}
 		x.mapFor(x.canon(op.Rem)).Remove(e)
@@ -1307,6 +1454,8 @@ func (x *Exec) dispatch(op GenOp, e ecs.Entity, tg map[string]ecs.Entity, lo *Lo
 		ex := x.exFor(tuple, op.Rem)
 		if noinit {
 			ex.ExchangeFn(e, nil, x.typedRels(tuple, tg))
+		} else if op.Mode == "fn" {
+			ex.ExchangeFn(e, x.writerFn(tuple, op.Vals), x.typedRels(tuple, tg))
 		} else {
 			ex.Exchange(e, valsFor(tuple, op.Vals), x.typedRels(tuple, tg))
 		}
@@ -1329,7 +1478,7 @@ func (x *Exec) dispatch(op GenOp, e ecs.Entity, tg map[string]ecs.Entity, lo *Lo
 			keys = append(keys, k)
 		}
 		sort.Strings(keys)
-		tuple := x.canon(keys)
+		tuple := x.relTuple(keys, op.Tup)
 		x.mapFor(tuple).SetRelations(e, x.typedRels(tuple, tg))
 	case "Kill":
 		w.RemoveEntity(e)
@@ -1370,7 +1519,7 @@ func (x *Exec) dispatch(op GenOp, e ecs.Entity, tg map[string]ecs.Entity, lo *Lo
 		if op.Mode == "val" {
 			// value form: the same component values for every selected entity
 			vs := valsFor(tuple, op.Vals)
-			if op.Op == "AddBatch" && x.Cfg.Path != "exchange" {
+			if op.Op == "AddBatch" && (x.Cfg.Path != "exchange" || len(tuple) > 8) {
 				x.mapFor(tuple).AddBatch(b, vs, x.typedRels(tuple, tg))
 			} else if op.Op == "AddBatch" {
 				x.exFor(tuple, nil).AddBatch(b, vs, x.typedRels(tuple, tg))
@@ -1379,7 +1528,7 @@ func (x *Exec) dispatch(op GenOp, e ecs.Entity, tg map[string]ecs.Entity, lo *Lo
 			}
 			return
 		}
-		if op.Op == "AddBatch" && x.Cfg.Path != "exchange" {
+		if op.Op == "AddBatch" && (x.Cfg.Path != "exchange" || len(tuple) > 8) {
 			x.mapFor(tuple).AddBatchFn(b, fn, x.typedRels(tuple, tg))
 		} else if op.Op == "AddBatch" {
 			x.exFor(tuple, nil).AddBatchFn(b, fn, x.typedRels(tuple, tg))
@@ -1396,7 +1545,7 @@ func (x *Exec) dispatch(op GenOp, e ecs.Entity, tg map[string]ecs.Entity, lo *Lo
 			}
 		}
 		if x.Cfg.Path == "exchange" {
-			x.exFor([]string{x.Cfg.Comps[0]}, op.Rem).RemoveBatch(b, cb)
+			x.exFor(x.anyExTuple(), op.Rem).RemoveBatch(b, cb)
 		} else {
 			x.mapFor(x.canon(op.Rem)).RemoveBatch(b, cb)
 		}
@@ -1408,7 +1557,7 @@ func (x *Exec) dispatch(op GenOp, e ecs.Entity, tg map[string]ecs.Entity, lo *Lo
 			keys = append(keys, k)
 		}
 		sort.Strings(keys)
-		tuple := x.canon(keys)
+		tuple := x.relTuple(keys, op.Tup)
 		x.mapFor(tuple).SetRelationsBatch(b, func(h ecs.Entity) {
 			lo.Bvals = append(lo.Bvals, BVal{E: h, V: map[string]int64{}})
 		}, x.typedRels(tuple, tg))
@@ -1426,6 +1575,17 @@ func (x *Exec) dispatch(op GenOp, e ecs.Entity, tg map[string]ecs.Entity, lo *Lo
 			x.filters[op.F] = old
 			return
 		}
+		pkey := fmt.Sprint(op.Flt.With, op.Flt.Without, op.Flt.Excl, x.tgMap(op.Flt.Ft))
+		if rf, ok := x.pool[pkey]; ok && x.Cfg.Reuse && len(x.queries) == 0 {
+			// a long-lived filter object that has been used unregistered (queries, batches with per-call
+			// targets) is registered now
+			delete(x.pool, pkey)
+			rf.id = op.F
+			rf.flt = op.Flt
+			rf.register()
+			x.filters[op.F] = rf
+			return
+		}
 		rf, err := x.buildFilter(op.Flt.With, op.Flt.Without, op.Flt.Excl, x.tgMap(op.Flt.Ft))
 		if err != nil {
 			panic(harnessBug{err.Error()})
@@ -1438,6 +1598,13 @@ func (x *Exec) dispatch(op GenOp, e ecs.Entity, tg map[string]ecs.Entity, lo *Lo
 		rf := x.filters[op.F]
 		rf.unregister()
 		delete(x.filters, op.F)
+		if x.Cfg.Reuse && len(x.queries) == 0 {
+			// the object stays in use as an unregistered filter
+			pkey := fmt.Sprint(rf.flt.With, rf.flt.Without, rf.flt.Excl, x.tgMap(rf.flt.Ft))
+			if _, ok := x.pool[pkey]; !ok {
+				x.pool[pkey] = rf
+			}
+		}
 	case "QOpen":
 		if x.Cfg.Path == "unsafe" && op.F == 0 {
 			lo.Mode = "unsafe"
